@@ -367,6 +367,23 @@ Lemma ensure_gap_fields s c :
   gaps (ensure_gap s c) = gaps s.
 Proof. unfold ensure_gap. destruct (Nat.eqb _ _); simpl; repeat split; reflexivity. Qed.
 
+Lemma fold_gap_fields L : forall s,
+  server (fold_left ensure_gap L s) = server s /\ tx_t (fold_left ensure_gap L s) = tx_t s /\
+  txo_t (fold_left ensure_gap L s) = txo_t s /\ txi_t (fold_left ensure_gap L s) = txi_t s /\
+  hists (fold_left ensure_gap L s) = hists s /\ pend (fold_left ensure_gap L s) = pend s /\
+  gaps (fold_left ensure_gap L s) = gaps s.
+Proof.
+  induction L as [|c L IH]; intro s; simpl.
+  - repeat split; reflexivity.
+  - destruct (IH (ensure_gap s c)) as [A [B [C [D [E [G H]]]]]].
+    destruct (ensure_gap_fields s c) as [A' [B' [C' [D' [E' [G' H']]]]]].
+    repeat split; congruence.
+Qed.
+Lemma restart_fields s :
+  server (restart s) = server s /\ tx_t (restart s) = tx_t s /\ txo_t (restart s) = txo_t s /\
+  txi_t (restart s) = txi_t s /\ hists (restart s) = hists s /\ pend (restart s) = [] /\ gaps (restart s) = gaps s.
+Proof. unfold restart. destruct (fold_gap_fields (map fst (gaps s)) (set_pend s [])) as [A [B [C [D [E [G H]]]]]]. repeat split; assumption. Qed.
+
 (* ================================================================================================ *)
 Section Conv.
 Variable F : list stx.                       (* the server state the run ends with *)
@@ -693,9 +710,23 @@ Proof.
     + eapply pend_ok_mono. exact LE. apply (inv_pend s I). exact J.
 Qed.
 
+Lemma inv_fold_gap L : forall s, Inv s -> Inv (fold_left ensure_gap L s).
+Proof. induction L as [|c L IH]; intros s I; simpl; auto. apply IH. apply inv_ensure_gap. exact I. Qed.
+Lemma inv_set_pend_nil s : Inv s -> Inv (set_pend s []).
+Proof.
+  intro I. constructor.
+  - apply I.
+  - apply I.
+  - apply I.
+  - apply I.
+  - apply I.
+  - intros b e J. eapply covered_mono; [|apply (inv_hist s I b e J)]. apply tables_le_refl; reflexivity.
+  - simpl. intros b st J. discriminate.
+Qed.
+
 Lemma inv_step s o s' : step s o = Some s' -> sub (server s') -> Inv s -> Inv s'.
 Proof.
-  intros ST SB I. destruct o as [S'|a st|a|a|a|c]; simpl in ST.
+  intros ST SB I. destruct o as [S'|a st|a|a|a|c|]; simpl in ST.
   - destruct (server_ok_b S' && grows_b (server s) S') eqn:E; [|discriminate]. inversion ST; subst; clear ST.
     apply andb_true_iff in E. destruct E as [E1 E2]. simpl in SB.
     constructor.
@@ -718,6 +749,7 @@ Proof.
     + intros b st J N. rewrite aget_adel_other in J; auto.
     + intros st J. rewrite aget_adel_same in J. discriminate.
   - inversion ST; subst. apply inv_ensure_gap. exact I.
+  - inversion ST; subst. unfold restart. apply inv_fold_gap. apply inv_set_pend_nil. exact I.
 Qed.
 
 Lemma inv_init g : Inv (init g).
@@ -746,7 +778,7 @@ Lemma step_server s o s' : step s o = Some s' ->
   server s' = server s \/
   (exists S', o = Server S' /\ server s' = S' /\ server_ok_b S' = true /\ grows_b (server s) S' = true).
 Proof.
-  intro ST. destruct o as [S'|a st|a|a|a|c]; simpl in ST.
+  intro ST. destruct o as [S'|a st|a|a|a|c|]; simpl in ST.
   - destruct (server_ok_b S' && grows_b (server s) S') eqn:E; [|discriminate]. inversion ST; subst.
     apply andb_true_iff in E. destruct E. right. exists S'. simpl. auto.
   - destruct (known s a); [|discriminate]. destruct (aget (pend s) a); [discriminate|].
@@ -757,6 +789,7 @@ Proof.
     destruct (chain_of a); [|discriminate]. inversion ST; subst. left.
     destruct (ensure_gap_fields (set_pend s (adel (pend s) a)) n) as [A _]. rewrite A. reflexivity.
   - inversion ST; subst. left. destruct (ensure_gap_fields s c) as [A _]. exact A.
+  - inversion ST; subst. left. destruct (restart_fields s) as [A _]. exact A.
 Qed.
 
 Lemma run_grows ops : forall s s', run s ops = Some s' ->
@@ -915,6 +948,9 @@ Proof.
   - rewrite nget_nset_other; auto.
 Qed.
 
+Lemma known_fold_gap L : forall s a, known s a = true -> known (fold_left ensure_gap L s) a = true.
+Proof. induction L as [|c L IH]; intros s a K; simpl; auto. apply IH. apply known_ensure_gap. exact K. Qed.
+
 Definition state_le (s s' : state) : Prop :=
   tables_le s s' /\ (forall a, known s a = true -> known s' a = true).
 
@@ -928,7 +964,7 @@ Qed.
 
 Lemma step_le s o s' : step s o = Some s' -> state_le s s'.
 Proof.
-  intro ST. destruct o as [S'|a st|a|a|a|c]; simpl in ST.
+  intro ST. destruct o as [S'|a st|a|a|a|c|]; simpl in ST.
   - destruct (server_ok_b S' && grows_b (server s) S'); [|discriminate]. inversion ST; subst.
     split; auto. apply tables_le_refl; reflexivity.
   - destruct (known s a); [|discriminate]. destruct (aget (pend s) a); [discriminate|]. inversion ST; subst.
@@ -947,6 +983,9 @@ Proof.
   - inversion ST; subst. destruct (ensure_gap_fields s c) as [_ [B [C [D _]]]]. split.
     + apply tables_le_refl; auto.
     + intros b K. apply known_ensure_gap. exact K.
+  - inversion ST; subst. destruct (restart_fields s) as [_ [B [C [D _]]]]. split.
+    + apply tables_le_refl; auto.
+    + intros b K. unfold restart. apply known_fold_gap. exact K.
 Qed.
 
 Lemma state_le_trans s1 s2 s3 : state_le s1 s2 -> state_le s2 s3 -> state_le s1 s3.
@@ -1097,9 +1136,52 @@ Qed.
 Lemma used_aset_other s' s a b v : hists s' = aset (hists s) a v -> a <> b -> used s' b = used s b.
 Proof. intros E N. unfold used, get_hist. rewrite E. rewrite aget_aset_other; auto. Qed.
 
+Lemma lead_fuel0 u k : lead u k 0 = 0.
+Proof. destruct k; reflexivity. Qed.
+Lemma nget_notin l c : ~ In c (map fst l) -> nget l c = 0.
+Proof.
+  induction l as [|[d v] l IH]; simpl; intro N; auto.
+  destruct (N.eqb d c) eqn:E.
+  - apply N.eqb_eq in E. exfalso. apply N. auto.
+  - apply IH. intro J. apply N. auto.
+Qed.
+
+Lemma fold_gap_chains L : forall s, (forall a, used s a = true -> known s a = true) ->
+  (forall a, used (fold_left ensure_gap L s) a = true -> known (fold_left ensure_gap L s) a = true) /\
+  (forall c, chain_ok s c -> chain_ok (fold_left ensure_gap L s) c) /\
+  (forall c, In c L -> chain_ok (fold_left ensure_gap L s) c).
+Proof.
+  induction L as [|c0 L IH]; intros s KH; simpl.
+  - split; [exact KH|split]; auto. intros c [].
+  - assert (KH1: forall a, used (ensure_gap s c0) a = true -> known (ensure_gap s c0) a = true).
+    { intros a U. destruct (ensure_gap_fields s c0) as [_ [_ [_ [_ [EH _]]]]].
+      rewrite (used_ext s) in U; auto. apply known_ensure_gap. apply KH. exact U. }
+    destruct (IH (ensure_gap s c0) KH1) as [A [B C]]. split; [exact A|split].
+    + intros c OK. apply B. destruct (N.eq_dec c0 c) as [E|E].
+      * subst. apply ensure_gap_chain. exact KH.
+      * apply ensure_gap_other; auto.
+    + intros c [J|J].
+      * subst. apply B. apply ensure_gap_chain. exact KH.
+      * apply C. exact J.
+Qed.
+
+Lemma ginv_restart s : GInv s -> GInv (restart s).
+Proof.
+  intro G. destruct (restart_fields s) as [_ [_ [_ [_ [EH [EP EG]]]]]].
+  assert (KH0: forall a, used (set_pend s []) a = true -> known (set_pend s []) a = true).
+  { intros a U. apply (g_known_hist s G). exact U. }
+  destruct (fold_gap_chains (map fst (gaps s)) (set_pend s []) KH0) as [A [B C]].
+  constructor.
+  - intros a st J. rewrite EP in J. discriminate.
+  - exact A.
+  - intro c. right. left. destruct (in_dec N.eq_dec c (map fst (gaps s))) as [J|J].
+    + apply C. exact J.
+    + unfold chain_ok. rewrite EG. rewrite (nget_notin _ _ J). apply lead_fuel0.
+Qed.
+
 Lemma ginv_step s o s' : step s o = Some s' -> GInv s -> GInv s'.
 Proof.
-  intros ST G. destruct o as [S'|a st|a|a|a|c]; simpl in ST.
+  intros ST G. destruct o as [S'|a st|a|a|a|c|]; simpl in ST.
   - destruct (server_ok_b S' && grows_b (server s) S'); [|discriminate]. inversion ST; subst.
     apply (ginv_ext s); auto.
   - destruct (known s a) eqn:KA; [|discriminate]. destruct (aget (pend s) a) eqn:PA; [discriminate|].
@@ -1170,6 +1252,7 @@ Proof.
       * right. left. exact Q.
       * right. right. exists n'. cbn [pend set_pend]. rewrite aget_adel_other; auto. congruence.
   - inversion ST; subst. apply ginv_ensure_gap. exact G.
+  - inversion ST; subst. apply ginv_restart. exact G.
 Qed.
 
 Lemma ginv_init g : GInv (init g).
@@ -1211,7 +1294,7 @@ Definition good (s : state) (a : addr) : Prop :=
   | Some HistSet => get_hist s a = server_hist (server s) a
   end.
 
-Definition is_server (o : op) : bool := match o with Server _ => true | _ => false end.
+Definition is_server (o : op) : bool := match o with Server _ => true | Restart => true | _ => false end.
 
 Lemma good_ext s s' a : server s' = server s -> aget (pend s') a = aget (pend s) a ->
   get_hist s' a = get_hist s a -> good s a -> good s' a.
@@ -1365,7 +1448,7 @@ Proof. exists []. split; [reflexivity|split]. intros t h []. reflexivity. Qed.
 
 Lemma hinv_step s o s' : step s o = Some s' -> HInv s -> HInv s'.
 Proof.
-  intros ST I. destruct o as [S'|a st|a|a|a|c]; simpl in ST.
+  intros ST I. destruct o as [S'|a st|a|a|a|c|]; simpl in ST.
   - destruct (server_ok_b S' && grows_b (server s) S') eqn:E; [|discriminate]. inversion ST; subst; clear ST.
     apply andb_true_iff in E. destruct E as [E1 E2]. assert (G := grows_sound _ _ E2).
     constructor; cbn [server pend].
@@ -1417,6 +1500,11 @@ Proof.
     + intro b. rewrite get_hist_ensure_gap. apply (from_server_same s); auto. apply (h_hist s I b).
     + intros b st0 J. rewrite E3 in J.
       destruct st0; simpl; auto; apply (from_server_same s); auto; apply (h_pend s I b _ J).
+  - inversion ST; subst. destruct (restart_fields s) as [E1 [_ [_ [_ [E2 [E3 _]]]]]].
+    constructor.
+    + rewrite E1. apply (h_ok s I).
+    + intro b. unfold get_hist. rewrite E2. apply (from_server_same s); auto. apply (h_hist s I b).
+    + intros b st0 J. rewrite E3 in J. discriminate.
 Qed.
 
 Lemma hinv_init g : HInv (init g).
@@ -1436,7 +1524,7 @@ Qed.
 
 Lemma step_good_keep s o s' a : step s o = Some s' -> is_server o = false -> good s a -> good s' a.
 Proof.
-  intros ST NS G. destruct o as [S'|b st|b|b|b|c]; simpl in ST; [discriminate| | | | |].
+  intros ST NS G. destruct o as [S'|b st|b|b|b|c|]; simpl in ST; [discriminate| | | | | |discriminate].
   - destruct (known s b); [|discriminate]. destruct (aget (pend s) b) eqn:PB; [discriminate|]. inversion ST; subst; clear ST.
     destruct (begin_cases s b st) as [[E _]|[B E]]; rewrite E; auto.
     destruct (addr_eqb b a) eqn:EA.
@@ -1607,7 +1695,7 @@ Proof.
   induction ops as [|o ops IH]; simpl; intros s s' R.
   - inversion R; subst. reflexivity.
   - destruct (step s o) as [s1|] eqn:ST; [|discriminate]. rewrite (IH _ _ R).
-    destruct o as [S'|a st|a|a|a|c]; simpl in ST.
+    destruct o as [S'|a st|a|a|a|c|]; simpl in ST.
     + destruct (server_ok_b S' && grows_b (server s) S'); [|discriminate]. inversion ST; subst. reflexivity.
     + destruct (known s a); [|discriminate]. destruct (aget (pend s) a); [discriminate|]. inversion ST; subst.
       destruct (begin_fields s a st) as [_ [_ [_ [_ [_ E]]]]]. exact E.
@@ -1617,6 +1705,7 @@ Proof.
       inversion ST; subst.
       destruct (ensure_gap_fields (set_pend s (adel (pend s) a)) n) as [_ [_ [_ [_ [_ [_ E]]]]]]. rewrite E. reflexivity.
     + inversion ST; subst. destruct (ensure_gap_fields s c) as [_ [_ [_ [_ [_ [_ E]]]]]]. exact E.
+    + inversion ST; subst. destruct (restart_fields s) as [_ [_ [_ [_ [_ [_ E]]]]]]. exact E.
 Qed.
 
 Lemma address_recorded g ops s a : run (init g) ops = Some s ->
@@ -1669,7 +1758,7 @@ Qed.
 
 Lemma step_nodup s o s' : step s o = Some s' -> NoDup (map key (txo_t s)) -> NoDup (map key (txo_t s')).
 Proof.
-  intros ST N. destruct o as [S'|a st|a|a|a|c]; simpl in ST.
+  intros ST N. destruct o as [S'|a st|a|a|a|c|]; simpl in ST.
   - destruct (server_ok_b S' && grows_b (server s) S'); [|discriminate]. inversion ST; subst. exact N.
   - destruct (known s a); [|discriminate]. destruct (aget (pend s) a); [discriminate|]. inversion ST; subst.
     destruct (begin_fields s a st) as [_ [E _]]. rewrite E. exact N.
@@ -1682,6 +1771,7 @@ Proof.
     inversion ST; subst. destruct (ensure_gap_fields (set_pend s (adel (pend s) a)) n) as [_ [_ [E _]]].
     rewrite E. exact N.
   - inversion ST; subst. destruct (ensure_gap_fields s c) as [_ [_ [E _]]]. rewrite E. exact N.
+  - inversion ST; subst. destruct (restart_fields s) as [_ [_ [E _]]]. rewrite E. exact N.
 Qed.
 Lemma run_nodup ops : forall s s', run s ops = Some s' -> NoDup (map key (txo_t s)) -> NoDup (map key (txo_t s')).
 Proof.
